@@ -171,10 +171,15 @@ def run(ctx):
     class MR(BaseRule):
         def call(self, it, st, node, recv, pos, kw):
             t = ast.unparse(node.func)
-            names = {"timeout_obj.start_connect": "start", "self._validate_conn": "validate", "conn.request": "request", "conn.getresponse": "getresponse"}
-            if t in names:
+            ev_name = None
+            f_ = node.func
+            if isinstance(f_, ast.Attribute) and recv is not None and recv.kind == "obj":
+                ev_name = {("timeout_obj", "start_connect"): "start", ("conn", "request"): "request", ("conn", "getresponse"): "getresponse"}.get((recv.val, f_.attr))
+            if t == "self._validate_conn":
+                ev_name = "validate"
+            if ev_name:
                 s = st.copy()
-                s.ts["ev"] = s.ts.get("ev", ()) + (names[t],)
+                s.ts["ev"] = s.ts.get("ev", ()) + (ev_name,)
                 return [Out("normal", s, UNK)]
             if t == "self._get_timeout":
                 return [Out("normal", st, AV("obj", "timeout_obj", truth=True, none=False))]
@@ -192,7 +197,7 @@ def run(ctx):
             return None
 
         def setattr(self, it, st, target, base, av):
-            if ast.unparse(target) == "conn.timeout":
+            if isinstance(target, ast.Attribute) and target.attr == "timeout" and base is not None and base.kind == "obj" and base.val == "conn":
                 st.ts["ev"] = st.ts.get("ev", ()) + ("set-conn-timeout:" + ",".join(sorted(t for t in av.tags if t in ("connect_timeout", "read_timeout"))),)
 
     outs, it = run_function(m, mr, MR(), POOL, params={"conn": AV("obj", "conn", truth=True, none=False)}, record_decisions=True)
@@ -212,7 +217,7 @@ def run(ctx):
         if idx("validate") is not None:
             checks.append(("clock started before validation/connect", idx("start") is not None and idx("start") < idx("validate")))
             sct = idx("set-conn-timeout:connect_timeout")
-            checks.append(("connect timeout applied before validation/connect", sct is not None and sct < idx("validate") and idx("start") < sct))
+            checks.append(("connect timeout applied before validation/connect", sct is not None and idx("start") is not None and sct < idx("validate") and idx("start") < sct))
         if idx("request") is not None:
             checks.append(("validation precedes the request", idx("validate") is not None and idx("validate") < idx("request")))
         if idx("getresponse") is not None:
@@ -239,7 +244,9 @@ def run(ctx):
         ok = bool(started_before)
         ctx.ob(R4, uo.qual, "tunnel set-up (_prepare_proxy -> connect) runs under the request's started clock", ok,
                "" if ok else "the CONNECT/TLS set-up through a proxy happens before _make_request starts the request's clock (on a fresh clone): its duration is not deducted from `total`, so the response wait can exceed total - time already spent connecting", node=c)
-        prev = [n for n in astq.walk_fn(uo.node) if isinstance(n, ast.Assign) and astq.text(n.targets[0]) == "conn.timeout" and n.lineno < c.lineno]
+        conn_names = set(astq.assigned_from(uo.node, lambda v: isinstance(v, ast.Call) and astq.call_text(v) == "self._get_conn"))
+        prev = [n for n in astq.walk_fn(uo.node) if isinstance(n, ast.Assign) and isinstance(n.targets[0], ast.Attribute) and n.targets[0].attr == "timeout"
+                and astq.text(n.targets[0].value) in conn_names and n.lineno < c.lineno]
         okc = bool(prev) and "connect_timeout" in astq.text(prev[-1].value)
         ctx.ob(R4, uo.qual, "the connect timeout is applied to the connection before the tunnel set-up", okc, node=c)
 
@@ -285,4 +292,5 @@ def run(ctx):
     ctx.ob(R7, CP, "_blocking_errnos == {EAGAIN, EWOULDBLOCK}", ok)
     # callers: the read-side handler in _make_request passes the read timeout
     calls_ = [c for c in astq.calls(mr.node) if astq.call_text(c) == "self._raise_timeout"]
-    ctx.ob(R7, mr.qual, "getresponse() errors are passed to _raise_timeout", any(astq.text(astq.kwarg(c, "timeout_value")) == "read_timeout" for c in calls_))
+    ctx.ob(R7, mr.qual, "getresponse() errors are passed to _raise_timeout with the read timeout",
+           any(astq.kwarg(c, "timeout_value") is not None and any(isinstance(x, ast.Attribute) and x.attr == "read_timeout" for x in astq.sources_of(mr.node, astq.kwarg(c, "timeout_value"))) for c in calls_))
